@@ -3,6 +3,7 @@ package sim
 import (
 	"context"
 	"fmt"
+	"github.com/itchio/lake/tlc"
 	"os"
 	"path/filepath"
 	"strings"
@@ -198,8 +199,25 @@ func TestC16(t *testing.T) {
 				}
 			}})
 		}
+		// sometimes the same context object was used before, for a validation that failed early: the
+		// signature names a directory whose name is longer than this platform allows (Lstat reports
+		// ENAMETOOLONG, which is not "missing"), as a signature made elsewhere may
+		priorFail := cmode == "failfast" && rapid.IntRange(0, 3).Draw(rt, "priorfailedrun") == 0
+		priorCancelEarly := rapid.Bool().Draw(rt, "priorcancelearly")
 		var verr error
 		s.Run(t, func() {
+			if priorFail {
+				ctx0, cancel0 := context.WithCancel(context.Background())
+				c0 := *si.Container
+				c0.Dirs = append([]*tlc.Dir{{Path: "!" + strings.Repeat("n", 300), Mode: 0o755}}, si.Container.Dirs...)
+				perr := vctx.Validate(ctx0, pristine, &pwr.SignatureInfo{Container: &c0, Hashes: si.Hashes})
+				Ev.ProbeIf(perr != nil, "context_reused_after_a_validation_that_failed_early")
+				if priorCancelEarly {
+					cancel0()
+				} else {
+					defer cancel0()
+				}
+			}
 			verr = vctx.Validate(ctx, target, si)
 		})
 		if s.BudgetExceeded {
